@@ -418,13 +418,13 @@ def quoteString (s : String) : String :=
 
 /-- `stringize(hash, arg)` followed by the two flag assignments of the `#` arm of `subst` -/
 def stringize (hash : Tok) (arg : List Tok) : Tok :=
-  { kind := .str, text := quoteString (joinTokens arg), hasSpace := hash.hasSpace, atBol := hash.atBol }
+  { kind := .str, text := quoteString (joinTokens arg), hasSpace := hash.hasSpace, atBol := hash.atBol, line := hash.line }
 
 /-- `paste(lhs, rhs)` -/
 def paste (lx : String → LexOne) (lhs rhs : Tok) : Except Err Tok :=
   let buf := lhs.text ++ rhs.text
   match lx buf with
-  | .one k => .ok { kind := k, text := buf, hasSpace := lhs.hasSpace, atBol := lhs.atBol }
+  | .one k => .ok { kind := k, text := buf, hasSpace := lhs.hasSpace, atBol := lhs.atBol, line := lhs.line }
   | .many => .error .pasteInvalid
   | .none => .error .nullDeref
   | .error => .error .lexError
@@ -520,10 +520,10 @@ def subst (lx : String → LexOne) (pp : PreExpand) (st : St) (body : List Tok) 
 
 /-! ## `expand_macro` -/
 
-/-- `new_num_token(val, tmpl)` as the handlers leave it: a fresh token, first of its own "file" -/
-def newNumToken (val : Nat) : Tok := { kind := .num, text := toString val, atBol := true }
+/-- `new_num_token(val, tmpl)` as the handlers leave it: a fresh token, first of its own "file", on `tmpl`'s line -/
+def newNumToken (val : Nat) (line : Nat := 1) : Tok := { kind := .num, text := toString val, atBol := true, line := line }
 /-- `new_str_token(str, tmpl)` -/
-def newStrToken (s : String) : Tok := { kind := .str, text := quoteString s, atBol := true }
+def newStrToken (s : String) (line : Nat := 1) : Tok := { kind := .str, text := quoteString s, atBol := true, line := line }
 
 /-- the line `line_macro` reports for a token: that of its outermost origin -/
 def originLine (t : Tok) : Nat := t.origin.getD t.line
@@ -531,11 +531,11 @@ def originLine (t : Tok) : Nat := t.origin.getD t.line
 /-- the built-in handlers (`__TIMESTAMP__` depends on the file system: its text is not modelled) -/
 def runBuiltin (st : St) (b : Builtin) (tok : Tok) : Tok × St :=
   match b with
-  | .counter => (newNumToken st.counter, { st with counter := st.counter + 1 })
-  | .line => (newNumToken (originLine tok), st)
-  | .file => (newStrToken st.file, st)
-  | .baseFile => (newStrToken st.file, st)
-  | .timestamp => (newStrToken "??? ??? ?? ??:??:?? ????", st)
+  | .counter => (newNumToken st.counter tok.line, { st with counter := st.counter + 1 })
+  | .line => (newNumToken (originLine tok) (originLine tok), st)
+  | .file => (newStrToken st.file (originLine tok), st)
+  | .baseFile => (newStrToken st.file tok.line, st)
+  | .timestamp => (newStrToken "??? ??? ?? ??:??:?? ????" tok.line, st)
 
 /-- `t->origin = tok` for every token of an expansion -/
 def setOrigin (ts : List Tok) (tok : Tok) : List Tok := ts.map fun t => { t with origin := some (originLine tok) }
